@@ -489,9 +489,9 @@ prop("C15", mons=[],
      assumptions=["the seeded generator is an arbitrary but fixed stream: draw i of the process after seed() made by source S is the symbol S@i", "numpy-backed distributions and the Mersenne Twister itself are not exercised"])
 
 # C16 ------------------------------------------------------------------------------------------------
-C16_BASES = [("RT", {"router": "cycle", "burst": 3}, 7), ("RT", {"router": "process", "burst": 2}, 5), ("RT", {"router": "jsq", "burst": 2}, 6), ("SL", {"burst": 2}, 5), ("CCa", {"burst": 2}, 5),
+C16_BASES = [("RT", {"router": "cycle", "burst": 3}, 6), ("RT", {"router": "process", "burst": 2}, 4), ("RT", {"router": "jsq", "burst": 2}, 6), ("SL", {"burst": 2}, 5), ("CCa", {"burst": 2}, 4),
              ("Q1", {"c": 1, "burst": 2}, 7), ("Q1", {"c": 2, "burst": 2, "first": 2}, 7), ("T2", {"burst": 2}, 7), ("P1", {"c": 1, "burst": 1}, 7), ("SC", {"burst": 2}, 7),
-             ("RN", {"burst": 2}, 7), ("Q1", {"c": "inf", "burst": 2}, 7), ("P1", {"c": 1, "pre": "resume", "burst": 1}, 7), ("L2", {"burst": 1, "p": 0.5}, 7)]
+             ("RN", {"burst": 2}, 7), ("Q1", {"c": "inf", "burst": 2}, 7), ("P1", {"c": 1, "pre": "resume", "burst": 1}, 7), ("L2", {"burst": 1, "p": 0.5}, 5)]
 C16_DEEP = [("Q1", {"c": 1, "burst": 3}), ("Q1", {"c": 2, "burst": 3}), ("T2", {"burst": 3}), ("T2", {"burst": 1, "first": 3, "c1": 3}), ("SC", {"burst": 3}),
             ("SC", {"burst": 2, "pre": "resume"}), ("RN", {"burst": 3}), ("P1", {"c": 1, "burst": 2})]
 prop("C16", mons=[],
